@@ -270,12 +270,13 @@ impl SampledFunction {
                 match self.order {
                     Interpolation::Linear => {
                         let (i, _, s) = self.input[0].map(x[0]);
-                        let idx = i * n_out;
+                        let idx = try_opt!(i.checked_mul(n_out));
+                        let idx2 = try_opt!(idx.checked_add(n_out));
 
-                        for (o, &a) in out.iter_mut().zip(&self.data[idx..]) {
+                        for (o, &a) in out.iter_mut().zip(try_opt!(self.data.get(idx..))) {
                             *o = a as f32 * (1. - s);
                         }
-                        for (o, &b) in out.iter_mut().zip(&self.data[idx + n_out..]) {
+                        for (o, &b) in out.iter_mut().zip(try_opt!(self.data.get(idx2..))) {
                             *o += b as f32 * s;
                         }
                     }
@@ -286,14 +287,14 @@ impl SampledFunction {
                 Interpolation::Linear => {
                     let (i0, s0, f0) = self.input[0].map(x[0]);
                     let (i1,  _, f1) = self.input[1].map(x[1]);
-                    let (j0, j1) = (i0+1, i1+1);
+                    let (j0, j1) = (i0.saturating_add(1), i1.saturating_add(1));
                     let (g0, g1) = (1. - f0, 1. - f1);
                     
                     out.fill(0.0);
-                    let mut add = |i0, i1, f| {
-                        let idx = (i0 + s0 * i1) * n_out;
+                    let mut add = |i0: usize, i1: usize, f| {
+                        let idx = s0.saturating_mul(i1).saturating_add(i0).saturating_mul(n_out);
                         
-                        if let Some(part) = self.data.get(idx .. idx+n_out) {
+                        if let Some(part) = self.data.get(idx .. idx.saturating_add(n_out)) {
                             for (o, &b) in out.iter_mut().zip(part) {
                                 *o += f * b as f32;
                             }
@@ -312,14 +313,14 @@ impl SampledFunction {
                     let (i0, s0, f0) = self.input[0].map(x[0]);
                     let (i1, s1, f1) = self.input[1].map(x[1]);
                     let (i2,  _, f2) = self.input[2].map(x[2]);
-                    let (j0, j1, j2) = (i0+1, i1+1, i2+1);
+                    let (j0, j1, j2) = (i0.saturating_add(1), i1.saturating_add(1), i2.saturating_add(1));
                     let (g0, g1, g2) = (1. - f0, 1. - f1, 1. - f2);
                     
                     out.fill(0.0);
-                    let mut add = |i0, i1, i2, f| {
-                        let idx = (i0 + s0 * (i1 + s1 * i2)) * n_out;
+                    let mut add = |i0: usize, i1: usize, i2: usize, f| {
+                        let idx = s1.saturating_mul(i2).saturating_add(i1).saturating_mul(s0).saturating_add(i0).saturating_mul(n_out);
                         
-                        if let Some(part) = self.data.get(idx .. idx+n_out) {
+                        if let Some(part) = self.data.get(idx .. idx.saturating_add(n_out)) {
                             for (o, &b) in out.iter_mut().zip(part) {
                                 *o += f * b as f32;
                             }
@@ -396,12 +397,14 @@ impl PsFunc {
                 PsOp::Roll => {
                     let j = stack.pop().ok_or(PostScriptError::StackUnderflow)? as isize;
                     let n = stack.pop().ok_or(PostScriptError::StackUnderflow)? as usize;
+                    if n > stack.len() {
+                        return Err(PostScriptError::StackUnderflow);
+                    }
                     let start = stack.len() - n;
                     let slice = &mut stack[start..];
-                    if j > 0 {
-                        slice.rotate_right(j as usize);
-                    } else {
-                        slice.rotate_left(-j as usize);
+                    if n > 0 {
+                        // a roll by j and by j mod n are the same
+                        slice.rotate_right(j.rem_euclid(n as isize) as usize);
                     }
                 }
                 PsOp::Index => {
@@ -434,6 +437,9 @@ impl PsFunc {
     pub fn parse(s: &str) -> Result<Self, PdfError> {
         let start = s.find('{').ok_or(PdfError::PostScriptParse)?;
         let end = s.rfind('}').ok_or(PdfError::PostScriptParse)?;
+        if end < start {
+            return Err(PdfError::PostScriptParse);
+        }
 
         let ops: Result<Vec<_>, _> = s[start + 1 .. end].split_ascii_whitespace().map(PsOp::parse).collect();
         Ok(PsFunc { ops: ops? })
